@@ -502,6 +502,8 @@ static void iauth_collect_stats(int terminator_last)
         iauth_send(NULL, "s");
 }
 
+static void parse_disconnect(struct iauth_request *req);
+
 static void parse_new_client(int id, int argc, char *argv[])
 {
     struct iauth_module *plugin;
@@ -511,6 +513,11 @@ static void parse_new_client(int id, int argc, char *argv[])
 
     if (argc < 5)
         return;
+
+    /* The client we knew under this id, if any, is gone. */
+    req = set_find(iauth_reqs, &id);
+    if (req != NULL)
+        parse_disconnect(req);
 
     /* Allocate, populate and index the request descriptor. */
     stats.n_req_allocs++;
